@@ -102,6 +102,40 @@ def gen_customs(rng, quick):
     return out
 
 
+AT_NAMES = ['media', 'page', 'Page', 'import', 'font-face', 'supports', 'x', '-x', '--y', 'é', '\\6d edia', 'M\\65 dia', 'charset',
+            'namespace', 'keyframes', 'a1', '_b', '\\@', 'layer']
+
+
+def which_error(rng, quick):
+    """The property names WHICH documented error: NotImplementedError for at-rules and pseudo-elements.  Every
+    `@identifier` (any name, any spelling) where a compound selector may start, and every `::identifier`, must
+    raise NotImplementedError, not SelectorSyntaxError."""
+    import soupsieve as sv
+    bad, n = [], 0
+    forms = ['@%s', '@%s x', ' @%s', '/**/@%s {}', 'p, @%s', 'p > @%s x', ':is(@%s)', ':not(p, @%s)', 'p,\n@%s']
+    pe_forms = ['::%s', 'p::%s', 'p, a::%s', ':is(p::%s)', 'p::%s(x)']
+    names = list(AT_NAMES)
+    if not quick:
+        names += [''.join(rng.choice('abcxyzPMp-_') for _ in range(rng.randint(1, 6))) for _ in range(300)]
+        names = [x for x in names if not x[0].isdigit() and not (x[0] == '-' and len(x) > 1 and x[1].isdigit()) and x != '-']
+    for nm in names:
+        for f, want_forms in ((forms, True), (pe_forms, True)):
+            for form in f:
+                if f is pe_forms and nm in ('\\@',):
+                    continue
+                pat = form % nm
+                n += 1
+                try:
+                    sv.compile(pat)
+                    got = 'compiled'
+                except Exception as e:      # noqa: BLE001
+                    got = type(e).__name__
+                if got != 'NotImplementedError':
+                    bad.append({'pattern': pat, 'exception': got, 'expected': 'NotImplementedError',
+                                'kind': 'at-rule' if f is forms else 'pseudo-element'})
+    return bad, n
+
+
 def run(chk):
     proof_ok = framework.lean_pipeline(chk, SOURCES)
     driver_ok = proof_ok or chk.build(['svdriver'])[0]
@@ -142,7 +176,13 @@ def run(chk):
     chk.coverage.update({'patterns': len(cases), 'py_outcomes': dict(outcome.most_common()), 'undocumented_exceptions': len(py_bad),
                          'py_vs_model_mismatches': len(corr_bad), 'exhaustive': True,
                          'exhaustive_scope': f'all strings of length <= {2 if quick else 3} over the 34-symbol alphabet'})
-    for i, b in enumerate(py_bad[:5]):
+    we_bad, we_n = which_error(random.Random(chk.seed ^ 0x6), quick)
+    chk.coverage['at_rule_and_pseudo_element_patterns'] = we_n
+    for i, b in enumerate(we_bad[:3]):
+        chk.violation(f'which{i}', {'what': 'an at-rule / pseudo-element is not reported with the documented NotImplementedError', **b},
+                      concrete=True)
+    py_bad = py_bad + we_bad
+    for i, b in enumerate([b for b in py_bad if 'expected' not in b][:5]):
         chk.violation(f'py{i}', {'what': 'compile() raised an exception that is not documented for this input', **b}, concrete=True)
     if not py_bad:
         for i, b in enumerate(corr_bad[:4]):
@@ -157,6 +197,12 @@ def replay(chk, path):
     data = json.load(open(path))
     py = parsecorr.py_compile(data['pattern'], data.get('custom'), 0)
     print(json.dumps({'py': py if py[0] == 'err' else 'ok'}, default=repr))
+    if data.get('expected'):
+        got = py[5] if py[0] == 'err' else 'compiled'
+        if got != data['expected']:
+            print(f'VIOLATION property={PID} replay={path}')
+            return 1
+        return 0
     if py[0] == 'err' and not (py[5] in ALLOWED or (py[5] == 'KeyError' and data.get('custom'))):
         print(f'VIOLATION property={PID} replay={path}')
         return 1
